@@ -193,6 +193,15 @@ def _ttokseq_cases(ch):
     for l in range(0, ch['K']):
         for tup in itertools.product(TVOCAB, repeat=l):
             yield {'s': ' '.join((a,) + tup), 'k': 'triples'}
+    # the same vocabulary with line breaks as the blank between tokens (a line end is just a blank in a conjunction)
+    for l in range(0, 4):
+        for tup in itertools.product(TVOCAB, repeat=l):
+            yield {'s': '\n'.join((a,) + tup), 'k': 'triples'}
+    for sep in ('\n', ' \n', '\r\n', '\n\n', '\n# c\n'):
+        for x in ('r(a, b)', 'r(a, "s")', 'r(a,)'):
+            for y in ('s(b, c)', '^ s(b, c)', '^s(b,c)', 'foo', '(', ')', '"t"', '^'):
+                if TVOCAB[ch['first']] == 'r(':
+                    yield {'s': x + sep + y, 'k': 'triples'}
 
 
 @st.composite
@@ -234,7 +243,7 @@ def _random(draw):
         items.append('%s(%s%s%s)' % (r, src, comma, tgt))
     s = items[0]
     for it in items[1:]:
-        s += draw(st.sampled_from([' ^ ', ' ^', '^ ', '^', ' ^\n', ' '])) + it
+        s += draw(st.sampled_from([' ^ ', ' ^', '^ ', '^', ' ^\n', ' ', '\n', '\n^ ', '\r\n', '\n\n'])) + it
     if draw(st.integers(0, 2)) == 0:
         toks = [t[1] for t in rlex.scan(s, 'triple')]
         s = ' '.join(draw(texts.mutated(toks, max_mut=2)))
